@@ -5,9 +5,12 @@
    HMCOperator.step() / LeapfrogIntegrator.__call__).
    [grad] is ANY function (the gradient of the potential energy as the code obtains it from
    autograd); no smoothness is used except where a derivative is mentioned explicitly. *)
+Set Warnings "-notation-overridden,-ambiguous-paths".
 From Coq Require Import QArith Reals List.
+From Coquelicot Require Import Coquelicot.
 Import ListNotations.
-From TT Require Import Num NumR NumQ ParamQ ParamI M_leapfrog M_lf_oracle P_leapfrog P_leapfrog_param.
+From TT Require Import Num NumR NumQ ParamQ ParamI M_leapfrog M_lf_oracle P_leapfrog P_leapfrog_param P_leapfrog_jac.
+From TT Require P_leapfrog_det.
 Open Scope R_scope.
 
 (* The code's arrangement (half step, L x (position, full momentum step), half step BACK with the
@@ -43,6 +46,30 @@ Theorem C16_leapfrog_shear_decomposition : forall eps Minv grad L x,
     (iter L (fun y => kick NumR grad eps (drift NumR Minv eps y)) (kick NumR grad (half NumR eps) x)).
 Proof. exact leapfrog_shears. Qed.
 Print Assumptions C16_leapfrog_shear_decomposition.
+
+(* Volume preservation, one degree of freedom, ANY differentiable gradient g (derivative g'), any step
+   size, inverse mass and number of steps: the partial derivatives of the implemented map
+   (q,p) -> (q',p') = (Fq q p, Fp q p) exist and the Jacobian determinant is one.  Real derivatives
+   (Coquelicot's is_derive); the chain rule is proved, not assumed. *)
+Theorem C16_volume_preserving_dim1 : forall (mi : R) (g g' : R -> R),
+  (forall x, is_derive g x (g' x)) ->
+  forall eps L q p, exists a b c d : R,
+    is_derive (fun t => Fq mi g eps L t p) q a /\ is_derive (fun t => Fq mi g eps L q t) p b /\
+    is_derive (fun t => Fp mi g eps L t p) q c /\ is_derive (fun t => Fp mi g eps L q t) p d /\
+    a * d - b * c = 1.
+Proof. exact leapfrog_jacobian_det_one_dim1. Qed.
+Print Assumptions C16_volume_preserving_dim1.
+(* where Fq / Fp are the two components of the model on one-element vectors: *)
+Theorem C16_Fq_Fp_are_the_model : forall mi g eps L q p,
+  leapfrog NumR eps (Diag [mi]) (map g) L ([q], [p]) = ([Fq mi g eps L q p], [Fp mi g eps L q p]).
+Proof.
+  intros. unfold Fq, Fp. change ([q], [p]) with (lift (q, p)). rewrite leapfrog_lift. reflexivity.
+Qed.
+Print Assumptions C16_Fq_Fp_are_the_model.
+(* volume_preserving_partial: in dimension n > 1 with a nonlinear gradient, "Jacobian determinant = 1"
+   follows from C16_leapfrog_shear_decomposition + C16_shear_jacobians_det_one (end of this file) by
+   the n-dimensional chain rule, which is NOT formalised; on the implementation the determinant is
+   measured by central differences on every run. *)
 
 (* The Hastings term returned by HMCOperator._step is K(p0) - K(p1), p1 the momentum returned by the
    integrator started from the drawn momentum p0; the positions it leaves are the integrator's. *)
@@ -137,3 +164,25 @@ Example C16_example :
                  ++ snd (leapfrog NumQ (sq (1#2)) (Diag [sq 1]) g 2 (flip NumQ x)))
      = map show_q [sq 1; sq 0].
 Proof. vm_compute. split; reflexivity. Qed.
+
+(* Volume preservation, ANY dimension, linear gradient q -> H q (every Gaussian target; H, M arbitrary
+   square matrices over any commutative ring): the Jacobians of the shears are
+   kickJ c H = [[1, 0], [-c H, 1]]  and  driftJ c M = [[1, c M], [0, 1]]  (they act on stacked vectors
+   exactly as the shears do), and the matrix of the implemented arrangement
+   kick(h2); L x [drift(h); kick(h)]; kick(-h2)  has determinant exactly 1. *)
+From mathcomp Require Import all_ssreflect all_algebra.
+Local Open Scope ring_scope.
+Import P_leapfrog_det.
+Theorem C16_shear_jacobians_det_one : forall (K : comRingType) (n : nat) (l : seq (shear K n)),
+  \det (shearsJ l) = 1.
+Proof. exact shearsJ_det. Qed.
+Print Assumptions C16_shear_jacobians_det_one.
+Theorem C16_leapfrog_matrix_det_one : forall (K : comRingType) (n : nat) (h h2 : K) (L : nat) (H M : 'M[K]_n),
+  \det (shearsJ (leapfrog_shears h h2 L H M)) = 1.
+Proof. exact leapfrogJ_det. Qed.
+Print Assumptions C16_leapfrog_matrix_det_one.
+Theorem C16_shear_matrices_act_as_shears : forall (K : comRingType) (n : nat) (l : seq (shear K n)) (q p : 'cV[K]_n),
+  shearsJ l *m col_mx q p =
+  col_mx (foldl (fun x s => shear_act s x) (q, p) l).1 (foldl (fun x s => shear_act s x) (q, p) l).2.
+Proof. exact shearsJ_acts. Qed.
+Print Assumptions C16_shear_matrices_act_as_shears.
